@@ -560,10 +560,11 @@ func ScaleBudget(d time.Duration) time.Duration {
 
 // divergent: a discrepancy normally ends the expansion of a node (implementation and reference model
 // can no longer be compared beyond it). Observations that leave both sides in agreement about the
-// state do not: the spendable-balance rise at an order completion (finding F13) is one.
+// state do not: the spendable-balance rise at an order completion (finding F13) is one, a
+// parameter query that answers differently from the (agreeing) store is another.
 func divergent(ds []Disc) bool {
 	for _, d := range ds {
-		if d.Kind != "ent.completion_spendable" {
+		if d.Kind != "ent.completion_spendable" && !strings.HasPrefix(d.Kind, "params.stale_view.") {
 			return true
 		}
 	}
